@@ -173,6 +173,17 @@ let opcode_of = function
   | "ADD" -> 0 | "SUB" -> 1 | "MUL" -> 2 | "DIV" -> 3 | "MIN" -> 4 | "MAX" -> 5
   | o -> failwith ("opcode " ^ o)
 
+(* PARSEC: the float a terminal description denotes ([impl ParseTagged for F64], terminal/f64.rs: the
+   special spellings, otherwise [f64::from_str]); the driver's oracle is OCaml's [float_of_string] (only
+   decimal texts are generated).  The VALUE of the type is that float passed through [F64::from]. *)
+let f64_text_bits (s : string) : string =
+  match s with
+  | "nan" | "NaN" | "NAN" -> "7ff8000000000000"
+  | "-∞" | "-inf" | "-infinity" | "-Inf" | "-Infinity" | "-INF" | "-INFINITY" | "MinusInf" -> "fff0000000000000"
+  | "∞" | "inf" | "infinity" | "Inf" | "Infinity" | "INF" | "INFINITY" | "+∞" | "+inf" | "+infinity" | "+Inf"
+  | "+Infinity" | "+INF" | "+INFINITY" | "PlusInf" -> "7ff0000000000000"
+  | _ -> Printf.sprintf "%016Lx" (Int64.bits_of_float (float_of_string s))
+
 let f64_inst : inst = {
   pfx = "c10b_f64m_";
   (* RAW patterns of the "T id v" pieces (the shared parser interns normalised values) *)
@@ -395,6 +406,7 @@ let process_f64 (c : case) : (int * string * string) option =
                let pos = int_of_string pos and neg = int_of_string neg in
                expect dslot (Array.init size (fun i -> ta.((i lor pos) land lnot neg)))
              | [ "CONSTN"; _; v ] -> expect dslot (Array.make size (f64_from v))
+             | [ "PARSEC"; _; v ] -> expect dslot (Array.make size (f64_from (f64_text_bits v)))
              | [ "VAR"; _; v ] ->
                let v = int_of_string v in
                expect dslot (Array.init size (fun i -> if (i lsr v) land 1 = 1 then f64_one_hex else f64_zero_hex))
@@ -437,7 +449,7 @@ let process_f64 (c : case) : (int * string * string) option =
              | [ "EVAL"; a ] -> [ a ]
              | _ -> []) in
           (match op, rest with
-           | ("ADD" | "SUB" | "MUL" | "DIV" | "MIN" | "MAX" | "ITE" | "RESTRICT" | "CONSTN" | "VAR" | "VT"), dst :: _ ->
+           | ("ADD" | "SUB" | "MUL" | "DIV" | "MIN" | "MAX" | "ITE" | "RESTRICT" | "CONSTN" | "PARSEC" | "VAR" | "VT"), dst :: _ ->
              let fops = List.map (fun a -> (slot_of a, ver (slot_of a))) names in
              bump (slot_of dst);
              pending := { fstep = i; ftoks = toks; fres = res; fpre = pre; fops;
@@ -487,6 +499,7 @@ let replay_case (ins : inst) (kname : string) (c : case) : (int * string * strin
       let s1, cube = build_cube ins k s ls.ps.v2l (int_of_string pos) (int_of_string neg) in
       (match ins.restrict k s1 (get a) cube with Some (s', r) -> Some (s1, s', r) | None -> None)
     | [ "CONSTN"; _; v ] -> let s', r = ins.const s v in Some (s, s', r)
+    | [ "PARSEC"; _; v ] when kname = "mtbddf" -> let s', r = ins.const s (f64_text_bits v) in Some (s, s', r)
     | [ "VAR"; _; v ] ->
       (match ins.var s (int_of_string v) with Some (s', r) -> Some (s, s', r) | None -> None)
     | _ -> None in
@@ -582,7 +595,8 @@ let replay_case (ins : inst) (kname : string) (c : case) : (int * string * strin
         | op :: rest ->
           let pre = if !fresh then !cur else None in
           (match op, rest with
-           | ("ADD" | "SUB" | "MUL" | "DIV" | "MIN" | "MAX" | "ITE" | "RESTRICT" | "CONSTN" | "VAR"), dst :: _ ->
+           | ("ADD" | "SUB" | "MUL" | "DIV" | "MIN" | "MAX" | "ITE" | "RESTRICT" | "CONSTN" | "VAR"), dst :: _
+           | "PARSEC", dst :: _ when kname = "mtbddf" ->
              let pops = List.map (fun a -> (slot_of a, ver (slot_of a))) (operand_names toks) in
              bump (slot_of dst);
              pending := { pstep = i; ptoks = toks; pres = res; ppre = pre; pops;
@@ -590,7 +604,7 @@ let replay_case (ins : inst) (kname : string) (c : case) : (int * string * strin
            | "EVAL", [ a ] ->
              pending := { pstep = i; ptoks = toks; pres = res; ppre = pre;
                           pops = [ (slot_of a, ver (slot_of a)) ]; pdst = None } :: !pending
-           | ("VT" | "CLONE"), dst :: _ -> bump (slot_of dst)
+           | ("VT" | "CLONE" | "PARSEC"), dst :: _ -> bump (slot_of dst)
            | ("DROP" | "DROPT"), [ a ] -> bump (slot_of a)
            | "DROPALL", _ -> incr epoch
            | _ -> ());
